@@ -261,7 +261,7 @@ func checkMain(args []string) int {
 	// obligations first; the rest are listed as further counterexamples of an already confirmed kind
 	const maxViolReplays = 12
 	seenKey := map[string]int{}
-	nViolReplays, nViolSkipped := 0, 0
+	nViolReplays, nViolSkipped, nViolBaseSkipped := 0, 0, 0
 	for _, v := range verdicts {
 		for i, o := range v.viol {
 			if i >= 3 {
@@ -271,6 +271,9 @@ func checkMain(args []string) int {
 			key := o.Class + "|" + o.ID + "|" + fmt.Sprint(v.spec.Params) + "|" + v.spec.Func
 			if nViolReplays >= maxViolReplays || seenKey[key] >= 1 {
 				nViolSkipped++
+				if !v.spec.isWindow {
+					nViolBaseSkipped++
+				}
 				continue
 			}
 			seenKey[key]++
@@ -321,13 +324,20 @@ func checkMain(args []string) int {
 				fmt.Printf("VIOLATION property=%s replay=%s\n", prop, r.path)
 				exit = 1
 			}
+		} else if r.v.spec.isWindow {
+			// a schedule found inside a symbolic window cannot be forced onto the Go runtime; what the perturbed
+			// replays did not reproduce is recorded as an unconfirmed window (reduced bound), neither a
+			// violation nor a pass of that window
+			msg := fmt.Sprintf("UNCONFIRMED: [%s] %s sat in the encoding for a schedule chosen inside the window, not reproduced natively (end=%s); model=%v", r.o.Class, r.o.ID, oc.End, r.o.Model)
+			r.v.undecided = append(r.v.undecided, msg)
+			fmt.Printf("  %s: %s\n", r.v.spec.Name, msg)
 		} else {
 			r.v.incon = append(r.v.incon, fmt.Sprintf("SPURIOUS: [%s] %s sat in the encoding but not reproduced natively (end=%s fails=%v); model=%v", r.o.Class, r.o.ID, oc.End, oc.Fails, r.o.Model))
 		}
 	}
 	if nViolSkipped > 0 {
 		fmt.Printf("  (%d further counterexamples of the same kinds were not replayed)\n", nViolSkipped)
-		if exit == 0 {
+		if exit == 0 && nViolBaseSkipped > 0 {
 			exit = 2
 		}
 	}
